@@ -297,7 +297,9 @@ func record(group, genClass string, stage int, input []byte) {
 	if stage < 0 {
 		return // excluded by a known finding (counted separately)
 	}
-	evid.Case(group+"/"+genClass, stage >= 1, fnvKey(input), nil)
+	evid.CaseFn(group+"/"+genClass, stage >= 1, fnvKey(input), func() any {
+		return map[string]any{"entry_point_group": group, "generator": genClass, "stage_reached": stage, "input_len": len(input), "input": evid.Hex(input)}
+	})
 	if stage >= 1 {
 		evid.Count("past-first-stage/"+group, 1)
 	}
